@@ -164,6 +164,30 @@ def mk_or(items):
     for it in out:
         if mk_not(it) in out:
             return TRUE
+    # or(and(X, a), and(X, ~a)) -> X ; or(X, and(X, a)) -> X
+    changed = True
+    while changed and len(out) > 1:
+        changed = False
+        sets = [frozenset(x[1]) if tag(x) == 'and' else frozenset([x]) for x in out]
+        for i in range(len(out)):
+            for j in range(len(out)):
+                if i == j:
+                    continue
+                if sets[i] <= sets[j]:
+                    del out[j]
+                    changed = True
+                    break
+                da, db = sets[i] - sets[j], sets[j] - sets[i]
+                if len(da) == 1 and len(db) == 1 and mk_not(next(iter(da))) == next(iter(db)):
+                    common = sets[i] & sets[j]
+                    new = mk_and(list(common)) if common else TRUE
+                    out = [x for k, x in enumerate(out) if k not in (i, j)] + [new]
+                    changed = True
+                    break
+            if changed:
+                break
+    if TRUE in out:
+        return TRUE
     if not out:
         return FALSE
     if len(out) == 1:
@@ -534,6 +558,8 @@ def root(t):
     reach *into* an object, not operations that build a new object)."""
     while True:
         tg = tag(t)
+        if tg == 'attr' and tag(t[1]) == 'p' and t[1][1] == 'self':
+            return t    # an attribute of the instance is an object of its own
         if tg in ('attr', 'col', 'cols', 'sub', 'acc', 'cell', 'rows', 'vals', 'index', 'columns'):
             t = t[2] if tg == 'acc' else t[1]
         elif tg in ('mask', 'upd'):
